@@ -450,7 +450,12 @@ func GenKind(r *hx.Rng, depth int, kind string) *Sch {
 			genObject(r, d, l, &objOpts{fields: []string{"a"}, mode: "passthrough"})
 			genObject(r, d, rr, &objOpts{fields: []string{"b", "c"}, mode: "strip"})
 		default:
-			l, rr = GenMember(r, d, "", true), GenMember(r, d, "", true)
+			if forced != nil { // GenOver: the child on the left, a side that accepts everything on the right
+				l = GenMember(r, d, "", true)
+				rr = leaf("Any()", gozod.Any(), "", []any{nil, 1, "s", []any{1}}, nil, nil)
+			} else {
+				l, rr = GenMember(r, d, "", true), GenMember(r, d, "", true)
+			}
 		}
 		s.Members = []*Sch{l, rr}
 		s.GoT = "mapSA"
